@@ -248,6 +248,13 @@ Definition note_nodefine (nm : bytes) (l : loc) (s : state) : state :=
     else mkSt (env s) (globs s) (nodefs s ++ [(nm, VI l None [] false None RkNone false)]) (nextf s)
   end.
 
+(* cgTableAccessExp, first pass: `_G.name` / `_G["name"]` is a use of the global `name` (analysisNoDefineStr) *)
+Definition note_G (p k : exp) (s : state) : state :=
+  match p, k with
+  | EName n _, EStr str l => if beq_bytes n s_G && negb (beq_bytes str [32%N]) then note_nodefine str l s else s
+  | _, _ => s
+  end.
+
 (* GetExpSubKey(s) <> "" *)
 Definition count_dots (s : bytes) : nat := length (filter (N.eqb c_dot) s).
 Definition sub_key_nonempty (s : bytes) : bool :=
@@ -331,6 +338,11 @@ Fixpoint member_assign (keys : list bytes) (j : nat) (locl : list loc) (l : loc)
       end
     end
   end.
+
+(* fixes/C19-member-of-deeper-global.diff (checkLeftAssign; ONE-LINE SWITCH, false = the code before the repair):
+   `function init() Cfg = {} end  function Cfg.load() end` - the member definition sits at an outer level than the
+   definition of the global, FindGlobalLimitVar fails, and the member was recorded nowhere *)
+Definition deep_global_fix : bool := true.
 
 Definition pvar := option (list (bytes * vinfo)).      (* parentVar of cgExp: None = nil, Some m = its SubMaps *)
 Definition sub_of (p : pvar) : list (bytes * vinfo) := match p with Some m => m | None => [] end.
@@ -445,20 +457,44 @@ Section Stat.
       let key := exp_name k in
       if negb (simple_str key) then Ok s2 else
       let l := if loc_initial (exp_loc k) then tl else exp_loc k in
+      if beq_bytes (exp_name p) (c_bang :: s_G) then
+        (* `_G.key = v` (tabName == "!_G"): the global `key` with GFlag set; no local is looked up *)
+        match find_global key flv slv l (globs s2) with
+        | Some v => Ok (refill (VRglob key) v s2)
+        | None =>
+          let v := VI l ofn sub false (Some (mkG flv slv true)) newref
+                      (match oe with Some e => ref_empty_assign t e | None => false end) in
+          Ok (mkSt (env s2) (assoc_set key v (globs s2)) (nodefs s2) (nextf s2))
+        end
+      else
       match split_dot (exp_name p) with
       | [] => Ok s2
       | p0 :: ps =>
         if negb (forallb simple_str ps) then Ok s2 else
-        let base := trim_bang p0 in
-        let keys := ps ++ [key] in
         let nw := mkNM ofn sub oe in
-        let f := member_assign keys 1 (table_loc_list t) l nw in
-        match find_loc_var (env s2) base l 0 with
-        | Some (d, i, _) => Ok (update_var (VRloc d base i) f s2)
-        | None =>
-          match find_global base flv slv l (globs s2) with
-          | Some _ => Ok (update_var (VRglob base) f s2)
-          | None => Ok (update_var (VRnodef base) f s2)     (* NodefineMaps[base], if any *)
+        (* the variable that receives the member when neither a local nor a visible global is found: NodefineMaps[base]
+           if any; repaired (fixes/C19-member-of-deeper-global.diff): otherwise the file's global of that name, which
+           was then defined at a deeper function / block level *)
+        let fallback (base : bytes) : varref :=
+          if deep_global_fix && negb (assoc_mem base (nodefs s2)) then VRglob base else VRnodef base in
+        match (if beq_bytes (trim_bang p0) s_G then ps else []) with
+        | g0 :: gs =>
+          (* `_G.g0.gs....key = v`: member of the global g0; no local is looked up; locList = locList[1:] *)
+          let f := member_assign (gs ++ [key]) 1 (List.tl (table_loc_list t)) l nw in
+          match find_global g0 flv slv l (globs s2) with
+          | Some _ => Ok (update_var (VRglob g0) f s2)
+          | None => Ok (update_var (fallback g0) f s2)
+          end
+        | [] =>
+          let base := trim_bang p0 in
+          let f := member_assign (ps ++ [key]) 1 (table_loc_list t) l nw in
+          match find_loc_var (env s2) base l 0 with
+          | Some (d, i, _) => Ok (update_var (VRloc d base i) f s2)
+          | None =>
+            match find_global base flv slv l (globs s2) with
+            | Some _ => Ok (update_var (VRglob base) f s2)
+            | None => Ok (update_var (fallback base) f s2)
+            end
           end
         end
       end
@@ -504,7 +540,7 @@ Fixpoint cg_exp (n : nat) (flv slv : N) (e : exp) (pv : pvar) (s : state) {struc
       do (s1, _, pv1) <- cg_exp n' flv slv e1 pv s ;
       do (s2, _, pv2) <- cg_exp n' flv slv e2 pv1 s1 ;
       Ok (s2, None, pv2)
-    | EIndex p k _ => do s1 <- nil1 p s ; do s2 <- nil1 k s1 ; Ok (s2, None, pv)
+    | EIndex p k _ => do s1 <- nil1 p s ; do s2 <- nil1 k s1 ; Ok (note_G p k s2, None, pv)
     | ECall p _ args _ => do s1 <- nil1 p s ; do s2 <- iter_res nil1 args s1 ; Ok (s2, None, pv)
     | EName nm l => Ok (note_nodefine nm l s, None, pv)
     | _ => Ok (s, None, pv)
@@ -705,11 +741,15 @@ Record fixes := mkFx {
   fx_hull : bool;       (* fixes/C19-children-inside.diff: entry with children = Union(own Loc, every child) *)
   fx_alldecl : bool;    (* fixes/C19-shadowed-top-local.diff: one entry per local DECLARATION, not per name *)
   fx_undecl : bool;     (* fixes/C19-member-of-undeclared.diff: members of names the file never defines are listed *)
-  fx_ownfile : bool }.  (* fixes/C19-foreign-member.diff: members that OTHER files contributed are not listed *)
+  fx_ownfile : bool;    (* fixes/C19-foreign-member.diff: members that OTHER files contributed are not listed *)
+  fx_wsdecl : bool;     (* fixes/C19-ws-redeclared-local.diff: workspace/symbol lists every local DECLARATION of a scope *)
+  fx_wsnested : bool;   (* fixes/C19-ws-nested-local-function.diff: ... also inside the bodies of global functions *)
+  fx_wsgmem : bool }.   (* fixes/C19-ws-G-members.diff: ... and the members of globals defined through `_G.` *)
 
-Definition fx_none : fixes := mkFx false false false false false false.
-Definition fx_round1 : fixes := mkFx true false false false false false.       (* /repo after 5912ee6 *)
-Definition fx_all : fixes := mkFx true true true true true true.
+Definition fx_none : fixes := mkFx false false false false false false false false false.
+Definition fx_round1 : fixes := mkFx true false false false false false false false false.       (* /repo after 5912ee6 *)
+Definition fx_round2 : fixes := mkFx true true true true true true false false false.            (* /repo after d582d9c *)
+Definition fx_all : fixes := mkFx true true true true true true true true true.
 
 (* maxLoc over the children, starting from the symbol's own end (code before fixes/C19-children-inside.diff) *)
 Fixpoint max_end (cs : list csym) (l c : Z) : Z * Z :=
@@ -718,6 +758,11 @@ Fixpoint max_end (cs : list csym) (l c : Z) : Z * Z :=
   | x :: cs' => if end_gt (el (c_loc x)) (ec (c_loc x)) l c then max_end cs' (el (c_loc x)) (ec (c_loc x))
                 else max_end cs' l c
   end.
+
+(* ExtraGlobal.GFlag: the global was defined by `_G.name = ...` *)
+Definition v_gflag (v : vinfo) : bool := match v_glob v with Some gi => g_flag gi | None => false end.
+Definition b_G_dot : bytes := [95; 71; 46]%N.                  (* "_G." *)
+Definition g_prefix (v : vinfo) : bytes := if v_gflag v then b_G_dot else [].
 
 Section Outline.
   Variable fx : fixes.
@@ -742,17 +787,19 @@ Section Outline.
     let (ml, mc) := max_end cs (el l) (ec l) in
     if fx_range fx then mkLoc (sl l) (sc l) ml mc else mkLoc (sl l) mc ml (ec l).
 
-  (* the entry of one variable; skip_self / local as in the two callers *)
+  (* the entry of one variable; skip_self / local as in the two callers; a global defined through `_G.` has
+     ContainerName "_G", which transferSymbolVec prints as a prefix of the name (not of the children's names) *)
   Definition var_sym (is_local : bool) (nm : bytes) (v : vinfo) : sym :=
+    let pn := g_prefix v ++ nm in
     match v_func v with
-    | Some fi => mkS nm (nm ++ param_suffix is_local (f_params fi)) true (fn_range (f_loc fi) (v_loc v)) (v_loc v) []
+    | Some fi => mkS nm (pn ++ param_suffix is_local (f_params fi)) true (fn_range (f_loc fi) (v_loc v)) (v_loc v) []
                      is_local false
     | None =>
       match v_sub v with
-      | [] => mkS nm nm false (v_loc v) (v_loc v) [] is_local false
+      | [] => mkS nm pn false (v_loc v) (v_loc v) [] is_local false
       | subs =>
         let cs := map (fun kv => child_sym nm (fst kv) (snd kv)) subs in
-        mkS nm nm false (parent_loc (v_loc v) cs) (v_loc v) cs is_local false
+        mkS nm pn false (parent_loc (v_loc v) cs) (v_loc v) cs is_local false
       end
     end.
 
@@ -816,7 +863,7 @@ Section Outline.
                           end) (nodefs s)
     else [].
 
-  (* FileResult.FindAllSymbol (no protocol prefixes configured, _G outside the fragment) *)
+  (* FileResult.FindAllSymbol (no protocol prefixes configured) *)
   Definition find_all_symbol (s : state) : list sym :=
     find_all_local (gmaps_fids (globs s)) (main_scope s) ++
     map (fun kv => var_sym false (fst kv) (snd kv)) (globs s) ++
@@ -835,41 +882,44 @@ Definition outline_state (fx : fixes) (orig merged : list state) (i : nat) : opt
 Definition deployed : fixes := fx_all.
 
 (* ------------------------------------------------------------------ workspace/symbol *)
-Record wsym := mkW { w_name : bytes; w_fn : bool; w_loc : loc }.
+(* w_name = the name without the `_G.` decoration; w_g = collect(.., prefix "_G", ..): printed as `_G.<name>` *)
+Record wsym := mkW { w_name : bytes; w_fn : bool; w_loc : loc; w_g : bool }.
 
 Definition w_members (only_func : bool) (pre : bytes) (v : vinfo) : list wsym :=
   flat_map (fun kv => match v_func (snd kv) with
-                      | Some _ => [mkW (pre ++ [c_dot] ++ fst kv) true (v_loc (snd kv))]
-                      | None => if only_func then [] else [mkW (pre ++ [c_dot] ++ fst kv) false (v_loc (snd kv))]
+                      | Some _ => [mkW (pre ++ [c_dot] ++ fst kv) true (v_loc (snd kv)) false]
+                      | None => if only_func then [] else [mkW (pre ++ [c_dot] ++ fst kv) false (v_loc (snd kv)) false]
                       end) (v_sub v).
 
 Definition is_some {A} (o : option A) : bool := match o with Some _ => true | None => false end.
 
-(* getLocVarMapsSymbols(hasPrefix = false) *)
-Definition w_scope_vars (only_func : bool) (vars : list (bytes * list vinfo)) : list wsym :=
-  flat_map (fun kv => match last_var (snd kv) with
-                      | Some v =>
-                        if only_func && (match v_sub v with [] => true | _ => false end) && negb (is_some (v_func v)) then []
-                        else mkW (fst kv) (is_some (v_func v)) (v_loc v) :: w_members only_func (fst kv) v
-                      | None => [] end) vars.
+(* getLocVarMapsSymbols(hasPrefix = false): VarVec[last] of every name; repaired (all = fx_wsdecl): every element *)
+Definition w_scope_vars (all : bool) (only_func : bool) (vars : list (bytes * list vinfo)) : list wsym :=
+  flat_map (fun kv =>
+              flat_map (fun v =>
+                          if only_func && (match v_sub v with [] => true | _ => false end) && negb (is_some (v_func v)) then []
+                          else mkW (fst kv) (is_some (v_func v)) (v_loc v) false :: w_members only_func (fst kv) v)
+                       (if all then snd kv else match last_var (snd kv) with Some v => [v] | None => [] end)) vars.
 
 (* the breadth-first walk over SubScopes; a scope in the exclude set is skipped together with everything below it *)
-Fixpoint w_subscopes (ex : list N) (sc : scope) : list wsym :=
+Fixpoint w_subscopes (all : bool) (ex : list N) (sc : scope) : list wsym :=
   match sc with
   | Scope fid vars subs =>
     if match fid with Some id => memN id ex | None => false end then []
-    else w_scope_vars true vars ++
-         (fix go (l : list scope) : list wsym := match l with [] => [] | x :: l' => w_subscopes ex x ++ go l' end) subs
+    else w_scope_vars all true vars ++
+         (fix go (l : list scope) : list wsym := match l with [] => [] | x :: l' => w_subscopes all ex x ++ go l' end) subs
   end.
 
 (* resultSorter.getQuerySymbols for one file; fx_undecl (fixes/C19-member-of-undeclared.diff): also the members that
    the file defines on names it never defines. (fx_ownfile - members contributed by other files are skipped - is a
-   matter of which state is passed: see outline_state.) *)
+   matter of which state is passed: see outline_state.)  fx_wsgmem: the GFlag branch lists the members too;
+   fx_wsnested: the MainScopes of the global functions (FindGMapsScopes) are no longer excluded from the walk *)
 Definition file_wsyms (fx : fixes) (s : state) : list wsym :=
-  flat_map (fun kv => mkW (fst kv) (is_some (v_func (snd kv))) (v_loc (snd kv)) :: w_members false (fst kv) (snd kv))
+  flat_map (fun kv => mkW (fst kv) (is_some (v_func (snd kv))) (v_loc (snd kv)) (v_gflag (snd kv)) ::
+                      (if v_gflag (snd kv) && negb (fx_wsgmem fx) then [] else w_members false (fst kv) (snd kv)))
            (globs s) ++
-  w_scope_vars false (s_vars (main_scope s)) ++
-  flat_map (w_subscopes (gmaps_fids (globs s))) (s_subs (main_scope s)) ++
+  w_scope_vars (fx_wsdecl fx) false (s_vars (main_scope s)) ++
+  flat_map (w_subscopes (fx_wsdecl fx) (if fx_wsnested fx then [] else gmaps_fids (globs s))) (s_subs (main_scope s)) ++
   (if fx_undecl fx
    then flat_map (fun kv => if assoc_mem (fst kv) (globs s) then [] else w_members false (fst kv) (snd kv)) (nodefs s)
    else []).
